@@ -73,6 +73,24 @@ Theorem C01_physical_qubit_held_once : forall s i j q q',
 Proof. exact qid_identifies_held_qubit. Qed.
 Print Assumptions C01_physical_qubit_held_once.
 
+(* a qubit created inside a register (remote_new_qubit_inreg): |0> is appended at the end of exactly the named register of the asked
+   node, recorded under the fresh identity; every other register of the network is untouched.  A client-made register starts empty. *)
+From Coq Require Import Permutation.
+Theorem C01_create_in_register_appends_to_named_register : forall s n ow k v,
+  reachable s -> snd (step s (ONewInReg n ow k)) = Ok v ->
+  ow = n /\ exists r rest, In r (regs (nth_node s n)) /\ r_num r = k /\ r_n r < r_max r /\
+    Permutation (all_regs s) (r :: rest) /\
+    Permutation (all_regs (fst (step s (ONewInReg n ow k))))
+      (mkReg (r_num r) (r_max r) (S (r_n r)) (add_qubit (r_n r) (r_tab r)) (r_ids r ++ [next_hid s]) :: rest).
+Proof. exact new_inreg_appends_to_named_register. Qed.
+Print Assumptions C01_create_in_register_appends_to_named_register.
+
+Theorem C01_create_register_adds_one_empty_register : forall s n mq v, snd (step s (ONewReg n mq)) = Ok v ->
+  v = nextReg (nth_node s n) /\
+  Permutation (all_regs (fst (step s (ONewReg n mq)))) (mkReg v mq 0 [] [] :: all_regs s).
+Proof. exact newreg_adds_one_empty_register. Qed.
+Print Assumptions C01_create_register_adds_one_empty_register.
+
 (* ================= layer 2: joint stabilizer group = ideal group ============================================================ *)
 
 (* MAIN THEOREM.  s = the network after the program; st = the ideal register after the translated program (same coins). *)
@@ -144,3 +162,18 @@ Theorem C01_nonvacuous_split_bell_pair :
     [None; None; None; None; None; None; None; None; Some true; Some true].
 Proof. exact (conj ex_factors (conj ex_joint_ZZ (conj ex_ideal_ZZ (proj1 (proj2 ex_outcomes))))). Qed.
 Print Assumptions C01_nonvacuous_split_bell_pair.
+
+(* non-vacuity with the two client operations on registers (remote_add_register, remote_new_qubit_inreg): a register of capacity 2 is
+   made and filled at node 0 (third creation refused), a Bell pair is built INSIDE it, node 1 keeps an unused (empty) register and
+   pulls the client-made register by a remote merge; the register operations translate to fresh |0> qubits / no-ops, X_0 X_1 is in
+   the joint group and (by the theorem) in the ideal group, and both machines report the same outcomes *)
+Theorem C01_nonvacuous_client_registers :
+  tr_run (init_net capsr) regprog =
+    [INop; ICreate 0; ICreate 1; INop; IGate1 0 GH; IGate2 0 1 GCNOT; INop; INop; ICreate 3; IGate2 3 1 GCNOT;
+     IMeas 1 true true; IMeas 0 false false; IMeas 3 false true] /\
+  joint (run (init_net capsr) regprog10) (P0, g2 0 PX 1 PX) /\
+  ideal (irun iinit (tr_run (init_net capsr) regprog10)) (P0, g2 0 PX 1 PX) /\
+  outs_meas regprog (run_outs (init_net capsr) regprog) =
+    [None; None; None; None; None; None; None; None; None; None; Some true; Some true; Some false].
+Proof. exact (conj ex_reg_translation (conj ex_reg_joint_XX (conj ex_reg_ideal_XX (proj1 (proj2 ex_reg_outcomes))))). Qed.
+Print Assumptions C01_nonvacuous_client_registers.
